@@ -22,4 +22,6 @@ func runC16(c *core.Ctx) {
 	h.disruptPermission("C16.4 disrupt-permission")
 	h.leaderYields("C16.4b timeout-now-voter-gated")
 	h.timeoutNowGrantsPermission("C16.5 timeout-now-permission")
+	// …and ends with the election it was given for
+	h.campaignProgress("C16.5b campaign-progress")
 }
